@@ -22,7 +22,10 @@ macro_rules! __lazy {
 
 #[inline]
 pub(crate) fn borrow<T: ?Sized>(cell: &CellImpl<T>) -> BorrowImpl<'_, T> {
-    parking_lot::RwLockReadGuard::map(cell.read(), |x| x)
+    // Nested shared borrows of a single cell are common in the runtime (e.g. when a container is
+    // compared with itself), `read()` would deadlock on the nested borrow as soon as a writer
+    // on another thread starts waiting in between.
+    parking_lot::RwLockReadGuard::map(cell.read_recursive(), |x| x)
 }
 
 #[inline]
